@@ -1,11 +1,11 @@
 package main
 
 import (
-	"strings"
 	"fmt"
 	"go/ast"
 	"go/token"
 	"go/types"
+	"strings"
 )
 
 // checkEnumSiblings: enumeration API of package tree.
@@ -357,6 +357,140 @@ func connNode(body ast.Node, pos token.Pos) ast.Node {
 	ast.Inspect(body, func(n ast.Node) bool {
 		if cl, ok := n.(*ast.CallExpr); ok && cl.Pos() == pos {
 			out = cl
+		}
+		return true
+	})
+	return out
+}
+
+// orientCurrentRule: a branch is flipped (Edge.Inverse) only under a condition that reads the
+// current orientation of a branch (left/right end, directly, through the getters, or through a
+// helper of the package that reads them). A flip guarded by anything else (a flag remembered from an
+// earlier operation, a counter) follows a state the tree may have left since: rerooting between an
+// NNI and its undo then leaves a branch pointing into the root.
+func (c *Ctx) orientCurrentRule(rule string) int {
+	n := 0
+	for _, fi := range c.AllFuncs("tree") {
+		if fi.Decl.Body == nil || (fi.Obj.Name() == "Inverse") {
+			continue
+		}
+		info := fi.Pkg.TypesInfo
+		o := c.localExpansions(info, fi.Decl.Body)
+		k := 0
+		for _, cl := range callsIn(fi.Decl.Body, true) {
+			if !isRepoFunc(calleeOf(info, cl), "tree", "Edge", "Inverse") {
+				continue
+			}
+			k++
+			n++
+			key := fmt.Sprintf("%s/Inverse#%d", funcName(fi.Obj), k)
+			conds, ok := c.pathConds(info, fi.Decl.Body, cl, false)
+			if !ok {
+				c.Undecided(rule, key, cl.Pos(), "conditions on the path to the flip not recognised")
+				continue
+			}
+			reads := false
+			for _, cd := range flattenConds(conds) {
+				if cd.Expr == nil {
+					continue
+				}
+				if c.readsOrientation(info, cd.Expr, o, 2) {
+					reads = true
+				} else if rhs := storedJustBefore(c, info, fi.Decl.Body, cd.Expr, o); rhs != nil && c.readsOrientation(info, rhs, o, 2) {
+					// `x.f = <test>; if x.f {flip}`: the remembered value is the one just computed
+					reads = true
+				}
+			}
+			if reads {
+				c.OK(rule, key, cl.Pos(), "the flip is guarded by a test of the branch's current ends")
+			} else {
+				c.Violation(rule, key, cl.Pos(), "the branch is flipped under a condition that does not read the current ends of any branch (left/right): if the tree was re-oriented since that condition's inputs were computed, the flip leaves a branch pointing into the root").Clause = "every branch pointing away from the root"
+			}
+		}
+	}
+	return n
+}
+
+// readsOrientation: the expression (locals expanded) mentions the left/right end of an Edge, or
+// calls a function of the repo whose body does (depth levels of calls followed).
+func (c *Ctx) readsOrientation(info *types.Info, e ast.Expr, o *canonOpts, depth int) bool {
+	s := c.canon(info, e, o)
+	for _, pat := range []string{".right", ".left"} {
+		for i := strings.Index(s, pat); i >= 0; {
+			j := i + len(pat)
+			if j >= len(s) || !(s[j] == '_' || s[j] >= 'a' && s[j] <= 'z' || s[j] >= 'A' && s[j] <= 'Z' || s[j] >= '0' && s[j] <= '9') {
+				return true
+			}
+			nx := strings.Index(s[j:], pat)
+			if nx < 0 {
+				break
+			}
+			i = j + nx
+		}
+	}
+	if depth == 0 {
+		return false
+	}
+	found := false
+	c.indexDecls()
+	for _, cl := range callsIn(e, true) {
+		g := calleeOf(info, cl)
+		if g == nil {
+			continue
+		}
+		fd, pk := c.declOf[g], c.declPkg[g]
+		if fd == nil || fd.Body == nil {
+			continue
+		}
+		ast.Inspect(fd.Body, func(m ast.Node) bool {
+			if x, ok := m.(ast.Expr); ok && !found {
+				switch x.(type) {
+				case *ast.SelectorExpr, *ast.CallExpr:
+					if c.readsOrientation(pk.TypesInfo, x, nil, depth-1) {
+						found = true
+					}
+					return false
+				}
+			}
+			return !found
+		})
+	}
+	return found
+}
+
+// storedJustBefore: the condition is a field (or its negation) assigned by the statement directly
+// preceding the `if` that tests it, in the same statement list; returns what was assigned.
+func storedJustBefore(c *Ctx, info *types.Info, body *ast.BlockStmt, e ast.Expr, o *canonOpts) ast.Expr {
+	e = unparen(e)
+	if u, ok := e.(*ast.UnaryExpr); ok && u.Op == token.NOT {
+		e = unparen(u.X)
+	}
+	if _, ok := e.(*ast.SelectorExpr); !ok {
+		return nil
+	}
+	want := c.canon(info, e, o)
+	var out ast.Expr
+	scan := func(list []ast.Stmt) {
+		for i, s := range list {
+			is, ok := s.(*ast.IfStmt)
+			if !ok || i == 0 || !(is.Cond.Pos() <= e.Pos() && e.End() <= is.Cond.End()) {
+				continue
+			}
+			if as, ok := list[i-1].(*ast.AssignStmt); ok && len(as.Lhs) == len(as.Rhs) {
+				for k, l := range as.Lhs {
+					if c.canon(info, l, o) == want {
+						out = as.Rhs[k]
+					}
+				}
+			}
+		}
+	}
+	ast.Inspect(body, func(m ast.Node) bool {
+		switch x := m.(type) {
+		case *ast.BlockStmt:
+			scan(x.List)
+		case *ast.CaseClause:
+			scan(x.Body)
 		}
 		return true
 	})
